@@ -601,7 +601,7 @@ class HDF5DataFrame(DataFrame):
         filter_array = None
         if row_filter is not None:
             filter_array, is_field = val.validate_boolean_row_filter('row_filter', row_filter)
-            if is_field and row_filter.name in field_name_to_use:
+            if is_field and self._columns.get(row_filter.name) is row_filter and row_filter.name in field_name_to_use:
                 field_name_to_use.remove(row_filter.name)
 
         fields_to_use = [self._columns[f] for f in field_name_to_use]
